@@ -70,6 +70,8 @@ type fnInfo struct {
 	calls   map[*ssa.Function]bool
 	gdeps   map[*types.Package]bool
 	ifaces  map[string]bool
+	fuel    bool // takes a fuel argument (has a loop or recursion, or calls something that does)
+	selfRec bool
 }
 
 func pkgShort(p *types.Package) string {
@@ -272,6 +274,23 @@ type sym struct {
 	typ   types.Type
 }
 
+type loopLoc struct {
+	cell int
+	key  string // "" = whole cell, else depth-1 field name
+}
+
+type loopInfo struct {
+	name    string
+	id      int
+	header  *ssa.BasicBlock
+	active  bool
+	phis    []*ssa.Phi
+	locs    []loopLoc
+	locSet  map[loopLoc]bool
+	maxCell int // cells with a larger id were allocated inside the loop
+	fuel    string
+}
+
 type state struct {
 	env   map[ssa.Value]sym
 	cells map[int]*cell
@@ -299,6 +318,11 @@ type ctx struct {
 	outputs  map[string]ioPath
 	inInit   bool
 	prefix   string
+	loops    map[*ssa.BasicBlock]*loopInfo
+	lstack   []*loopInfo
+	loopSeq  int
+	fuelVar  string // the fuel variable in scope ("" when the function has not needed fuel yet)
+	usesFuel bool
 	pcell    map[int]int // param index -> cell id
 	fixedOut []ioPath    // outputs known from the previous pass
 	tmp      int
@@ -442,6 +466,19 @@ func (c *ctx) load(p *ptrv) string {
 }
 
 func (c *ctx) store(p *ptrv, val string) {
+	for _, li := range c.lstack {
+		if p.cell.id <= li.maxCell {
+			key := ""
+			if p.cell.param >= 0 && isStruct(p.cell.root.typ) && len(p.path) > 0 && p.path[0].field >= 0 {
+				key = p.path[0].name
+			}
+			loc := loopLoc{p.cell.id, key}
+			if !li.locSet[loc] {
+				li.locSet[loc] = true
+				li.locs = append(li.locs, loc)
+			}
+		}
+	}
 	if p.cell.param >= 0 {
 		var io ioPath
 		rootTy := p.cell.root.typ
@@ -949,10 +986,22 @@ func (c *ctx) call(s *state, x *ssa.Call, d int) {
 		fail("closure with free variables")
 	}
 	ci := c.t.translate(callee)
-	if ci.err != "" {
-		fail("calls %s (%s)", callee.String(), ci.err)
+	self := false
+	if ci.busy {
+		if callee != c.fn {
+			fail("mutual recursion with %s", callee.String())
+		}
+		// direct recursion: the body is wrapped in a match on the fuel, the recursive call gets the predecessor;
+		// the callee's inputs and outputs are those found by the previous pass over this function
+		self = true
+		c.info.selfRec = true
+		c.usesFuel = true
+	} else {
+		if ci.err != "" {
+			fail("calls %s (%s)", callee.String(), ci.err)
+		}
+		c.info.calls[callee] = true
 	}
-	c.info.calls[callee] = true
 	// arguments
 	var args []string
 	ptrArgs := map[int]*ptrv{}
@@ -994,6 +1043,14 @@ func (c *ctx) call(s *state, x *ssa.Call, d int) {
 	for _, in := range sortedKeys(ci.ifaces) {
 		c.info.ifaces[in] = true
 		iargs = append(iargs, "I_"+in)
+	}
+	if ci.fuel || self {
+		c.usesFuel = true
+		fv := c.fuelVar
+		if fv == "" {
+			fv = "fuel"
+		}
+		iargs = append(iargs, fv)
 	}
 	args = append(iargs, args...)
 	nres := callee.Signature.Results().Len()
@@ -1143,8 +1200,199 @@ func firstOrder(ty types.Type) bool {
 
 // block executes a basic block (and, recursively, its successors) and emits a Lean term.
 func (c *ctx) block(s *state, b *ssa.BasicBlock, from *ssa.BasicBlock, onPath map[*ssa.BasicBlock]bool, d int) {
+	if li := c.loops[b]; li != nil && li.active {
+		c.backEdge(s, li, from, d)
+		return
+	}
+	if isLoopHeader(b) {
+		c.loop(s, b, from, onPath, d)
+		return
+	}
+	c.blockFrom(s, b, from, onPath, d, false)
+}
+
+func isLoopHeader(b *ssa.BasicBlock) bool {
+	for _, p := range b.Preds {
+		if b.Dominates(p) {
+			return true
+		}
+	}
+	return false
+}
+
+func (c *ctx) locPtr(s *state, loc loopLoc) *ptrv {
+	cl := s.cells[loc.cell]
+	if cl == nil {
+		fail("loop-carried memory was consumed")
+	}
+	q := &ptrv{cell: cl}
+	if loc.key != "" {
+		st := cl.root.typ.Underlying().(*types.Struct)
+		for i := 0; i < st.NumFields(); i++ {
+			if st.Field(i).Name() == loc.key {
+				q.path = []step{{field: i, name: loc.key, cidx: -1}}
+			}
+		}
+	}
+	return q
+}
+
+func (c *ctx) locType(s *state, loc loopLoc) types.Type {
+	cl := s.cells[loc.cell]
+	if loc.key == "" {
+		return cl.root.typ
+	}
+	st := cl.root.typ.Underlying().(*types.Struct)
+	for i := 0; i < st.NumFields(); i++ {
+		if st.Field(i).Name() == loc.key {
+			return st.Field(i).Type()
+		}
+	}
+	fail("internal: loop location")
+	return nil
+}
+
+func (c *ctx) retTypeNow() string {
+	var rs []string
+	res := c.fn.Signature.Results()
+	for i := 0; i < res.Len(); i++ {
+		rs = append(rs, c.t.leanType(res.At(i).Type()))
+	}
+	for _, io := range c.fixedOut {
+		rs = append(rs, c.t.leanType(io.typ))
+	}
+	if len(rs) == 0 {
+		return "Unit"
+	}
+	return strings.Join(rs, " × ")
+}
+
+// loop: the first arrival at a loop header.  The loop becomes a local function, structurally recursive on a fuel
+// argument, whose parameters are the header's phis and the memory the loop writes; everything after the loop
+// (each exit path up to the function's return) is part of that function's body.
+func (c *ctx) loop(s *state, b *ssa.BasicBlock, from *ssa.BasicBlock, onPath map[*ssa.BasicBlock]bool, d int) {
+	if c.loops == nil {
+		c.loops = map[*ssa.BasicBlock]*loopInfo{}
+	}
+	li := &loopInfo{id: b.Index, header: b, locSet: map[loopLoc]bool{}, maxCell: c.ncell}
+	for _, in := range b.Instrs {
+		ph, ok := in.(*ssa.Phi)
+		if !ok {
+			break
+		}
+		li.phis = append(li.phis, ph)
+	}
+	idx := -1
+	for i, p := range b.Preds {
+		if p == from {
+			idx = i
+		}
+	}
+	if idx < 0 {
+		fail("internal: loop entry without matching predecessor")
+	}
+	var initVals []sym
+	for _, ph := range li.phis {
+		v := c.val(s, ph.Edges[idx])
+		if v.ptr != nil || v.fn != nil || v.comps != nil || v.iface {
+			fail("loop-carried pointer, function or interface value")
+		}
+		initVals = append(initVals, v)
+	}
+	c.usesFuel = true
+	outerFuel := c.fuelVar
+	if outerFuel == "" {
+		outerFuel = "fuel"
+	}
+	li.fuel = fmt.Sprintf("fuel%d", li.id)
+	c.loops[b] = li
+	defer delete(c.loops, b)
+	// discover the memory the loop carries: run the body, discard the text, until no new location is written
+	for iter := 0; ; iter++ {
+		if iter > 8 {
+			fail("loop-carried memory does not stabilise")
+		}
+		n0 := len(li.locs)
+		savedOut, savedLeaves, savedTmp, savedCell := c.out.String(), c.leaves, c.tmp, c.ncell
+		c.out.Reset()
+		c.loopBody(s.clone(), li, onPath, d)
+		c.out.Reset()
+		c.out.WriteString(savedOut)
+		c.leaves, c.tmp, c.ncell = savedLeaves, savedTmp, savedCell
+		if len(li.locs) == n0 {
+			break
+		}
+	}
+	// header of the local function (a loop reached on several paths is emitted once per path: number the copies)
+	c.loopSeq++
+	li.name = fmt.Sprintf("loop%d_%d", li.id, c.loopSeq)
+	name := li.name
+	var params, args []string
+	for i, ph := range li.phis {
+		params = append(params, fmt.Sprintf("(%s : %s)", c.prefix+ph.Name(), c.t.leanType(ph.Type())))
+		args = append(args, initVals[i].expr)
+	}
+	for i, loc := range li.locs {
+		params = append(params, fmt.Sprintf("(m%d_%d : %s)", li.id, i, c.t.leanType(c.locType(s, loc))))
+		args = append(args, c.load(c.locPtr(s, loc)))
+	}
+	fmt.Fprintf(&c.out, "%slet rec %s (%s : Nat) %s : %s :=\n%smatch %s with\n%s| 0 => default\n%s| %s' + 1 =>\n",
+		ind(d), name, li.fuel, strings.Join(params, " "), c.retTypeNow(), ind(d+1), li.fuel, ind(d+1), ind(d+1), li.fuel)
+	c.loopBody(s.clone(), li, onPath, d+2)
+	fmt.Fprintf(&c.out, "%s%s %s %s\n", ind(d), name, outerFuel, strings.Join(args, " "))
+}
+
+func (c *ctx) loopBody(s *state, li *loopInfo, onPath map[*ssa.BasicBlock]bool, d int) {
+	for _, ph := range li.phis {
+		s.env[ph] = sym{expr: c.prefix + ph.Name(), typ: ph.Type()}
+	}
+	for i, loc := range li.locs {
+		q := c.locPtr(s, loc)
+		// overwrite without recording it as a store of the loop
+		saved := c.lstack
+		c.lstack = nil
+		c.store(q, fmt.Sprintf("m%d_%d", li.id, i))
+		c.lstack = saved
+	}
+	li.active = true
+	c.lstack = append(c.lstack, li)
+	savedFuel := c.fuelVar
+	c.fuelVar = li.fuel + "'"
+	defer func() {
+		li.active = false
+		c.lstack = c.lstack[:len(c.lstack)-1]
+		c.fuelVar = savedFuel
+	}()
+	c.blockFrom(s, li.header, nil, onPath, d, true)
+}
+
+func (c *ctx) backEdge(s *state, li *loopInfo, from *ssa.BasicBlock, d int) {
+	idx := -1
+	for i, p := range li.header.Preds {
+		if p == from {
+			idx = i
+		}
+	}
+	if idx < 0 {
+		fail("internal: back edge without matching predecessor")
+	}
+	var args []string
+	for _, ph := range li.phis {
+		v := c.val(s, ph.Edges[idx])
+		if v.ptr != nil || v.fn != nil || v.comps != nil || v.iface {
+			fail("loop-carried pointer, function or interface value")
+		}
+		args = append(args, v.expr)
+	}
+	for _, loc := range li.locs {
+		args = append(args, c.load(c.locPtr(s, loc)))
+	}
+	fmt.Fprintf(&c.out, "%s%s %s' %s\n", ind(d), li.name, li.fuel, strings.Join(args, " "))
+}
+
+func (c *ctx) blockFrom(s *state, b *ssa.BasicBlock, from *ssa.BasicBlock, onPath map[*ssa.BasicBlock]bool, d int, phisBound bool) {
 	if onPath[b] {
-		fail("loop")
+		fail("irreducible control flow")
 	}
 	onPath[b] = true
 	defer delete(onPath, b)
@@ -1162,14 +1410,19 @@ func (c *ctx) block(s *state, b *ssa.BasicBlock, from *ssa.BasicBlock, onPath ma
 				idx = i
 			}
 		}
-		if idx < 0 {
+		if idx < 0 && !phisBound {
 			fail("internal: phi without matching predecessor")
 		}
 		phis = append(phis, ph)
+		if phisBound {
+			continue
+		}
 		phiVals = append(phiVals, c.val(s, ph.Edges[idx]))
 	}
-	for i, ph := range phis {
-		s.env[ph] = phiVals[i]
+	if !phisBound {
+		for i, ph := range phis {
+			s.env[ph] = phiVals[i]
+		}
 	}
 	for _, in := range b.Instrs[len(phis):] {
 		switch x := in.(type) {
@@ -1412,9 +1665,6 @@ func (t *translator) fnName(fn *ssa.Function) string {
 
 func (t *translator) translate(fn *ssa.Function) (fi *fnInfo) {
 	if old, ok := t.funcs[fn]; ok {
-		if old.busy {
-			return &fnInfo{err: "recursion"}
-		}
 		return old
 	}
 	fi = &fnInfo{fn: fn, name: t.fnName(fn), busy: true, calls: map[*ssa.Function]bool{}, gdeps: map[*types.Package]bool{}, ifaces: map[string]bool{}}
@@ -1441,9 +1691,15 @@ func (t *translator) translate(fn *ssa.Function) (fi *fnInfo) {
 	saved := t.cur
 	t.cur = fi
 	defer func() { t.cur = saved }()
-	for pass := 0; pass < 4; pass++ {
+	prevSig := ""
+	for pass := 0; pass < 6; pass++ {
 		fi.ifaces = map[string]bool{}
 		c = &ctx{t: t, info: fi, fn: fn, inputs: map[string]ioPath{}, outputs: map[string]ioPath{}, pcell: map[int]int{}, fixedOut: fixedOut}
+		wasSelfRec := fi.selfRec
+		if wasSelfRec {
+			c.fuelVar = "fuel'"
+			c.usesFuel = true
+		}
 		fi.calls = map[*ssa.Function]bool{}
 		s := &state{env: map[ssa.Value]sym{}, cells: map[int]*cell{}}
 		for i, p := range fn.Params {
@@ -1466,28 +1722,38 @@ func (t *translator) translate(fn *ssa.Function) (fi *fnInfo) {
 		}
 		c.block(s, fn.Blocks[0], nil, map[*ssa.BasicBlock]bool{}, 1)
 		newOut := sortedIO(c.outputs)
-		same := len(newOut) == len(fixedOut)
-		if same {
-			for i := range newOut {
-				if newOut[i].name != fixedOut[i].name {
-					same = false
-				}
-			}
+		sig := fmt.Sprint(fi.selfRec, c.usesFuel, "|")
+		for _, io := range sortedIO(c.inputs) {
+			sig += io.name + ","
 		}
-		if same {
+		sig += "|"
+		for _, io := range newOut {
+			sig += io.name + ","
+		}
+		sig += "|" + strings.Join(sortedKeys(fi.ifaces), ",")
+		fi.inputs = sortedIO(c.inputs)
+		fi.outputs = newOut
+		fi.fuel = c.usesFuel
+		fixedOut = newOut
+		if sig == prevSig && wasSelfRec == fi.selfRec {
 			break
 		}
-		fixedOut = newOut
-		if pass == 3 {
-			fail("outputs do not stabilise")
+		prevSig = sig
+		if pass == 5 {
+			fail("signature does not stabilise")
 		}
 	}
-	fi.inputs = sortedIO(c.inputs)
-	fi.outputs = fixedOut
 	// signature
 	var ps []string
 	for _, in := range sortedKeys(fi.ifaces) {
-		ps = append(ps, fmt.Sprintf("{R_%s : Type} (I_%s : %s_ops R_%s)", in, in, in, in))
+		if fi.fuel {
+			ps = append(ps, fmt.Sprintf("{R_%s : Type} [Inhabited R_%s] (I_%s : %s_ops R_%s)", in, in, in, in, in))
+		} else {
+			ps = append(ps, fmt.Sprintf("{R_%s : Type} (I_%s : %s_ops R_%s)", in, in, in, in))
+		}
+	}
+	if fi.fuel {
+		ps = append(ps, "(fuel : Nat)")
 	}
 	for i, p := range fn.Params {
 		if _, ok := p.Type().Underlying().(*types.Pointer); ok {
@@ -1514,6 +1780,10 @@ func (t *translator) translate(fn *ssa.Function) (fi *fnInfo) {
 	}
 	fi.params = strings.Join(ps, " ")
 	fi.body = c.out.String()
+	if fi.selfRec {
+		fi.body = "  match fuel with\n  | 0 => default\n  | fuel' + 1 =>\n" + strings.ReplaceAll(fi.body, "\n  ", "\n    ")
+		fi.body = strings.Replace(fi.body, "=>\n  ", "=>\n    ", 1)
+	}
 	return fi
 }
 
